@@ -388,7 +388,7 @@ fn class_archive(f: &Value, alg: u32, b: &Built) -> Vec<u8> {
         _ => Params { filter_bits: 0, min: 0, max: 64, window: 0, hash_len: b.hl as u32, algorithm: 2 },
     };
     match cls("window").as_str() { "zero" => p.window = 0, "gt_max" => p.window = p.max + 5, _ => {} }
-    match cls("bits").as_str() { "zero" => p.filter_bits = 0, "gt32" => p.filter_bits = 33, _ => {} }
+    match cls("bits").as_str() { "zero" => p.filter_bits = 0, "gt32" => p.filter_bits = 33, "b31" => p.filter_bits = 31, "b32" => p.filter_bits = 32, _ => {} }
     match cls("minmax").as_str() { "min_gt_max" => { p.min = p.max + 7 } "max_zero" => { p.max = 0; p.min = 0; if alg != 2 { p.window = 0 } } _ => {} }
     if cls("alg") == "unknown" { p.algorithm = 7 }
     match cls("hashlen").as_str() { "zero" => p.hash_len = 0, "long" => p.hash_len = 200, _ => {} }
